@@ -487,9 +487,9 @@ def run(ctx):
     for kind in ("number", "string", "date", "time", "dt", "dtd", "ymd", "boolean", "list", "context", "range"):
         ctx.enumerate(ctx.p_triple, kind_triples(kind), name="all ordered triples of the %s sub-alphabet" % kind, exhaustive=True)
     ctx.enumerate(ctx.p_triple, mixed_triples(), name="all ordered triples of the %d-value mixed alphabet (not of one ordered kind)" % len(MIXED), exhaustive=True)
-    ctx.forall(ctx.p_rpair, ctx.scale(50000, 1500000), batch=400)
-    ctx.forall(ctx.p_rtriple, ctx.scale(50000, 1500000), batch=400)
-    ctx.forall(ctx.p_dst, ctx.scale(12000, 300000), batch=400)
+    ctx.forall(ctx.p_rpair, ctx.scale(50000, 6000000), batch=400)
+    ctx.forall(ctx.p_rtriple, ctx.scale(50000, 6000000), batch=400)
+    ctx.forall(ctx.p_dst, ctx.scale(12000, 1200000), batch=400)
 
 
 if __name__ == "__main__":
